@@ -81,18 +81,18 @@ var checks = []Check{
 	},
 	{
 		ID: "C05", Title: "TCP: bytes relayed unmodified, in order, both ways, with half-close", Level: "model_checking",
-		LevelText:   "stateless exploration of all schedules within bounds of the real HandleConn/pipeConn relay on a virtual network: stream lengths around the 16 KiB copy buffer in both directions, three writer chunkings, four finishing orders (client half-closes first, backend first, both, client full close), copy buffer shrunk to 8 bytes, two connections sharing the buffer pool; read sizes as environment deviations in the thorough tier; SO_LINGER(0) modelled; free-running race pass of the TCP processor on the unmodified code",
+		LevelText:   "stateless exploration of all schedules within bounds of the real HandleConn/pipeConn relay on a virtual network: stream lengths around the 16 KiB copy buffer in both directions, three writer chunkings, four finishing orders (client half-closes first, backend first, both, client full close), copy buffer shrunk to 8 bytes, two connections sharing the buffer pool; read sizes as environment deviations in the thorough tier; SO_LINGER(0) modelled; free-running race pass of the TCP processor on the unmodified code; through the real listener with bounded socket buffers (back-pressure, TCP_USER_TIMEOUT modelled): streams longer than the buffers towards a receiver that starts reading up to 9 minutes late",
 		Technique:   "preemption/delay-bounded stateless schedule exploration of the real relay goroutines with input enumeration",
-		Assumptions: append([]string{"vnet models orderly close, half-close and reset; kernel behaviours such as RST on close with unread data or partial writes are outside the model"}, engineAssumptions...),
+		Assumptions: append([]string{"vnet models orderly close, half-close, reset, linger 0, and - where a scenario bounds the socket buffers - back-pressure and TCP_USER_TIMEOUT; other kernel behaviours (RST on close with unread data, partial writes, keep-alive) are outside the model"}, engineAssumptions...),
 		Jobs: []Job{
 			{Pkg: "proc/tcp", Scenarios: []string{"C05/relay"}, Shards: 16, QuickS: 90, ThoroughS: 240},
 			{Pkg: "proc/tcp", Scenarios: []string{"C05/stack-race"}, Race: true, Shards: 1, QuickS: 120, ThoroughS: 240},
-			{Pkg: "proc/tcp", Scenarios: []string{"C05/two-connections", "C05/paced"}, Shards: 8, QuickS: 60, ThoroughS: 240},
+			{Pkg: "proc/tcp", Scenarios: []string{"C05/two-connections", "C05/paced", "C05/slow-receiver"}, Shards: 8, QuickS: 60, ThoroughS: 240},
 		},
 	},
 	{
 		ID: "C09", Title: "listeners: stop and drain always complete and release what they hold", Level: "model_checking",
-		LevelText:   "stateless exploration of all schedules within bounds of the real listener on a virtual network: Serve with a bind that fails 0/1/always times, a Stop / Drain / Drain+Stop caller at every point of the listener's life, 0-2 clients, connection limit 0/1; plus arrival patterns against a limit; plus stop of the real Redis and TCP processors with idle, in-flight, silent and closed backends; redis Stop while the first backend connect is still in progress or while an endpoint is removed during the hot-key collection round; tcp Stop while still connecting; controller Stop/Drain racing updates",
+		LevelText:   "stateless exploration of all schedules within bounds of the real listener on a virtual network: Serve with a bind that fails 0/1/always times, a Stop / Drain / Drain+Stop caller at every point of the listener's life, 0-2 clients, connection limit 0/1; plus arrival patterns against a limit; plus stop of the real Redis and TCP processors with idle, in-flight, silent and closed backends; redis Stop while the first backend connect is still in progress or while an endpoint is removed during the hot-key collection round; tcp Stop while still connecting; controller Stop/Drain racing updates; the health monitor with its real redis / advanced-TCP / MySQL checkers against answering, wrong, late, silent, closing and refusing backends, 1-3 rounds, then Stop; a monitor with more hosts than its check concurrency",
 		Technique:   "preemption/delay-bounded stateless schedule exploration of the real goroutines under a controlled scheduler with virtual time and network",
 		Assumptions: engineAssumptions,
 		Jobs: []Job{
@@ -120,7 +120,7 @@ var checks = []Check{
 	},
 	{
 		ID: "C04", Title: "slot migration and failover are invisible to clients", Level: "model_checking",
-		LevelText:   "every history up to depth 4/5 (plus full migration scripts) over set-migrating / migrate key / finalise / failover (old master up or down) / refresh round interleaved with GET SET INCR DEL MGET on the moving and a stable slot group, on the real proxy stack against the mini cluster (ASK for absent keys of a migrating slot, ASKING consumed by the next command, MOVED from non-owners and replicas); plus all schedules within bounds of an ASK-redirected INCR racing with other traffic on the target node's connection; migration to a fresh master that owns no slots; an outage of the slot owner with a command meanwhile; failover + host-removal notice while a refresh answered from the old topology is in flight",
+		LevelText:   "every history up to depth 4/5 (plus full migration scripts) over set-migrating / migrate key / finalise / failover (old master up or down) / refresh round interleaved with GET SET INCR DEL MGET on the moving and a stable slot group, on the real proxy stack against the mini cluster (ASK for absent keys of a migrating slot, ASKING consumed by the next command, MOVED from non-owners and replicas); plus all schedules within bounds of an ASK-redirected INCR racing with other traffic on the target node's connection; migration to a fresh master that owns no slots; an outage of the slot owner with a command meanwhile; failover + host-removal notice while a refresh answered from the old topology is in flight; redirected writes with transparent compression on (C13/histories); failover announced by a host-removal notice",
 		Technique:   "exhaustive enumeration of migration/failover histories + preemption/delay-bounded schedule exploration on the real proxy stack",
 		Assumptions: append([]string{"mini Redis Cluster redirection rules written from redis-server 5.0 getNodeByQuery; ownership changes are atomic cluster-wide (no gossip lag); replicas share their master's data", "errors are tolerated after a failover whose old master is down until the next periodic refresh round completed (the proxy cannot know earlier; deliberately weaker than the statement)"}, engineAssumptions...),
 		Jobs: []Job{
@@ -200,7 +200,7 @@ var checks = []Check{
 	},
 	{
 		ID: "C14", Title: "only supported commands reach backends; writes only reach masters", Level: "exploration",
-		LevelText:   "exhaustive enumeration of the command-name space through the real proxy on a 2-master x 2-replica mini cluster: the full Redis 5.0 command table (with Redis's own write flags), every name in the proxy's tables and odd names, in three letter cases, with 0-4 arguments, under the three read strategies, with the virtual clock stepped so that the time-based replica choice visits every candidate; node logs compared before/after each command at quiescence; run-time read-strategy changes (histories <= 4/5); keys with an empty hash tag",
+		LevelText:   "exhaustive enumeration of the command-name space through the real proxy on a 2-master x 2-replica mini cluster: the full Redis 5.0 command table (with Redis's own write flags), every name in the proxy's tables and odd names, in three letter cases, with 0-4 arguments, under the three read strategies, with the virtual clock stepped so that the time-based replica choice visits every candidate; node logs compared before/after each command at quiescence; run-time read-strategy changes (histories <= 4/5); keys with an empty hash tag; every pipeline of 2/3 out of 7 commands (read, write, unsupported, local) as RESP, inline or alternating, also one write per command while requests wait for a backend connection; CLUSTERDOWN answers; first keys at the command table's position",
 		Technique:   "bounded-exhaustive enumeration of the command space on the real proxy stack under a controlled scheduler",
 		Rule:        "distinct = (name, letter case, argument count, strategy, clock step) combinations issued",
 		Assumptions: append([]string{"Redis 5.0 command table with write flags embedded in the harness (written from the redis-server 5.0 command table)", "mini Redis Cluster node logs"}, engineAssumptions...),
@@ -214,7 +214,7 @@ var checks = []Check{
 	},
 	{
 		ID: "C03", Title: "on a stable cluster the proxy behaves like a single Redis server", Level: "model_checking",
-		LevelText:   "explicit-state BFS over command programs (depth 3-4 quick, 4-5 thorough; ~40 commands covering every handler over 4 colliding keys; 1 or 2 connections; 5 layouts of 3 slot groups on 1-3 nodes) through the real proxy (sessions, upstream, backend clients) on a virtual network against a mini Redis Cluster; each reply compared with a single-server reference, first delivery checked against slot ownership, zero redirections, final keyspaces equal; plus a sweep of binary/boundary-length keys and values through 7 write/read families; requests issued at every unsynchronised slot-table access of a running periodic refresh; the first pipeline after start",
+		LevelText:   "explicit-state BFS over command programs (depth 3-4 quick, 4-5 thorough; ~40 commands covering every handler over 4 colliding keys; 1 or 2 connections; 5 layouts of 3 slot groups on 1-3 nodes) through the real proxy (sessions, upstream, backend clients) on a virtual network against a mini Redis Cluster; each reply compared with a single-server reference, first delivery checked against slot ownership, zero redirections, final keyspaces equal; plus a sweep of binary/boundary-length keys and values through 7 write/read families; requests issued at every unsynchronised slot-table access of a running periodic refresh; the first pipeline after start; 13 reply shapes repeated past the decoder's nesting limit on long-lived connections, with compression off and on",
 		Technique:   "explicit-state BFS over operation histories of the real proxy stack under a controlled scheduler (default schedule), reference-model comparison in every state",
 		Assumptions: append([]string{"mini Redis Cluster + single-server reference interpreter (/verif/sim/cluster) written from the Redis 5.0 documentation; the same interpreter is used on both sides so the comparison checks routing, splitting and relaying", "default schedule only (the quantifier of C03 is programs x inputs x layouts)"}, engineAssumptions...),
 		Jobs: []Job{
@@ -260,7 +260,7 @@ var checks = []Check{
 	},
 	{
 		ID: "C12", Title: "key-to-slot mapping equals the Redis Cluster specification", Level: "exploration",
-		LevelText:   "bounded-exhaustive input enumeration through the real routing function: all keys of length 0-3 (every CRC state x every next byte: the induction step for all lengths), two free positions in keys up to 64 bytes, every brace placement over a 4-letter alphabet up to length 9/11, against a bit-by-bit CRC16/XMODEM and the specification's hash-tag rule",
+		LevelText:   "bounded-exhaustive input enumeration through the real routing function: all keys of length 0-3 (every CRC state x every next byte: the induction step for all lengths), two free positions in keys up to 64 bytes, every brace placement over a 4-letter alphabet up to length 9/11, against a bit-by-bit CRC16/XMODEM and the specification's hash-tag rule; slots moved one at a time with redirected GET/SET/EVAL/MGET (a redirection teaches the proxy only about the redirected key's slot); every forwarded command of the command table arrives at the owner of its first key",
 		Technique:   "bounded-exhaustive input enumeration (complete by induction over the CRC state)",
 		Rule:        "each evaluation is a distinct key; all are counted (the 2^24 three-byte keys cover every CRC state x next byte)",
 		Assumptions: []string{"Go compiler and runtime", "reference CRC16/XMODEM and hash-tag rule written from the Redis Cluster specification", "slot read through upstream.chooseHost over an identity slot table"},
